@@ -1,6 +1,51 @@
-From Coq Require Import List.
-From PG Require Import Graph.MGraph C19.Model.
-(* placeholder until the proofs land *)
-Theorem c19_placeholder : forall g, V (acy_model g) = V g.
-Proof. reflexivity. Qed.
-Print Assumptions c19_placeholder.
+(* C19 — acyclification realises sigma-separation.
+   Unbounded: acy_nodes_edges, acy_acyclic, acy_idempotent_on_acyclic, sigma_sep_dec_reflects.
+   Bounded by kernel computation: sigma_equiv_bounded_3 (ALL directed mixed graphs on <= 3 nodes) and
+   sigma_equiv_bounded_4_directed (all 4096 directed graphs on 4 nodes, no bidirected edges).
+   The unbounded sigma clause (C19.Spec.sigma_equiv_stmt) is stated, not proved. *)
+From Coq Require Import List Arith.
+From PG Require Import Base.ListSet Graph.MGraph Graph.MSep C19.Model C19.Spec C19.Proofs C19.SigmaDec C19.Bounded
+  C19.Bounded_n3 C19.Bounded_n4.
+Import ListNotations.
+
+(* the model's edges are exactly the property's characterisation (strongly connected component = mutual reachability) *)
+Theorem acy_nodes_edges : acy_nodes_edges_stmt.
+Proof. exact acy_nodes_edges_proof. Qed.
+Print Assumptions acy_nodes_edges.
+
+Theorem acy_acyclic : acy_acyclic_stmt.
+Proof. exact acy_acyclic_proof. Qed.
+Print Assumptions acy_acyclic.
+
+Theorem acy_idempotent_on_acyclic : acy_idempotent_on_acyclic_stmt.
+Proof. exact acy_idempotent_on_acyclic_proof. Qed.
+Print Assumptions acy_idempotent_on_acyclic.
+
+(* the brute-force oracle used by the harness and by the bounded theorems decides sigma-separation as defined on paths *)
+Theorem sigma_sep_dec_reflects : forall g X Y Z, incl X (V g) -> incl Z (V g) ->
+  (sigma_sep_dec g X Y Z = true <-> sigma_sep g X Y Z).
+Proof. exact sigma_sep_dec_spec. Qed.
+Print Assumptions sigma_sep_dec_reflects.
+
+(* all directed mixed graphs on <= 3 nodes, all disjoint X, Y, Z: path definitions on both sides *)
+Theorem sigma_equiv_bounded_3 : forall n g X Y Z, n <= 3 -> In g (cyc_graphs n) ->
+  (forall x, In x X -> x < n) -> (forall y, In y Y -> y < n) -> In Z (sublists (seq 0 n)) ->
+  (forall x, In x X -> ~ In x Y /\ ~ In x Z) -> (forall y, In y Y -> ~ In y Z) ->
+  (msep (acy_model g) X Y Z <-> sigma_sep g X Y Z).
+Proof. exact sigma_equiv_bounded_3_prop_proof. Qed.
+Print Assumptions sigma_equiv_bounded_3.
+
+(* all directed graphs (any cycles) on 4 nodes without bidirected edges *)
+Theorem sigma_equiv_bounded_4_directed : forall d X Y Z, In d (subl (ord_pairs 4)) ->
+  (forall x, In x X -> x < 4) -> (forall y, In y Y -> y < 4) -> In Z (sublists (seq 0 4)) ->
+  (forall x, In x X -> ~ In x Y /\ ~ In x Z) -> (forall y, In y Y -> ~ In y Z) ->
+  (msep (acy_model (MkG (seq 0 4) d [] [] [])) X Y Z <-> sigma_sep (MkG (seq 0 4) d [] [] []) X Y Z).
+Proof. exact sigma_equiv_bounded_4_directed_prop_proof. Qed.
+Print Assumptions sigma_equiv_bounded_4_directed.
+
+(* the enumeration covers the class: every edge set over 0..n-1 is, as a set, the edge set of an enumerated graph *)
+Theorem cyc_enumeration_complete : forall n (D0 B0 : list (nat * nat)),
+  incl D0 (ord_pairs n) -> incl B0 (unord_pairs n) ->
+  exists g, In g (cyc_graphs n) /\ V g = seq 0 n /\ incl D0 (D g) /\ incl (D g) D0 /\ incl B0 (B g) /\ incl (B g) B0.
+Proof. exact cyc_enumeration_covers. Qed.
+Print Assumptions cyc_enumeration_complete.
